@@ -136,6 +136,10 @@ SPEC_GROUPS = [
 
 # Action statements usable anywhere in an execution part.
 EXEC = [
+    # characters that str.splitlines() treats as line boundaries but a source file does not
+    # (form feed, vertical tab, file/group/record separators, NEL, LS, PS) inside literals
+    "c1 = 'pg\x0cbk'",
+    'print *, "v\x0bt", \'u\x1c\x1d\x1e\x85w\', "l\u2028p\u2029s"',
     "allocate(w(0:n), ia(1:3))",
     "allocate(w(n), stat=i)",
     "allocate(w(n), stat=i, errmsg=c1)",
